@@ -149,6 +149,9 @@ def run(c):
                 hx = ""
                 if pi % 6 == 5:
                     hx = "".join("%s: %s\r\n" % rng.choice(extra) for _ in range(rng.range(1, 2)))
+                bare_p = p.split("?", 1)[0].split("#", 1)[0]
+                if any((bare_p + sfx) in t.files for sfx in (".gz", ".br")):
+                    hx = "Accept-Encoding: gzip, deflate, br\r\n"   # a pre-compressed sibling exists: the client says it would take it
                 raws.append(("GET %s HTTP/1.1\r\nHost: localhost\r\n%s\r\n" % (p, hx)).encode("utf-8"))
             res_by_entry = {}
             for entry in ("process", "legacy"):
